@@ -59,7 +59,7 @@ func VxH14len() {
 	vxAssert(vxNot(vxContains(d, "/")), "C14.segment")
 }
 
-// VxH14b: richer identities: two in-ports, a tag, and a joined sub-stream member. Any
+// VxH14b: richer identities: an in-port, a tag, and a joined sub-stream member. Any
 // difference in any component gives a different temp dir (modulo KF-C14-1), and the name
 // does not depend on map iteration order.
 func VxH14b() {
@@ -67,19 +67,24 @@ func VxH14b() {
 	vxTraceMode(true)
 	mk := func(suffix string) (*Task, string, bool) {
 		a := vxStr("a"+suffix, L, vxClassSmall)
-		b := vxStr("b"+suffix, L, vxClassSmall)
 		tg := vxStr("t"+suffix, 2, vxClassSmall)
 		sub := vxStr("s"+suffix, L, vxClassSmall)
-		vxAssume(vxAnd(vxCleanPath(a), vxAnd(vxCleanPath(b), vxCleanPath(sub))))
+		vxAssume(vxAnd(vxCleanPath(a), vxCleanPath(sub)))
 		ipa, e1 := NewFileIP(a)
-		ipb, e2 := NewFileIP(b)
 		ips, e3 := NewFileIP(sub)
-		vxAssume(e1 == nil && e2 == nil && e3 == nil)
-		t := NewTask(nil, nil, "p", "echo", map[string]*FileIP{"x": ipa, "y": ipb}, nil, nil,
+		vxAssume(e1 == nil && e3 == nil)
+		// the joined in-port z receives its member through the carrier IP's sub-stream, the
+		// way NewTask collects it (nothing is poked into the task afterwards)
+		carrier, e4 := NewFileIP("c")
+		vxAssume(e4 == nil)
+		go func() {
+			carrier.SubStream.Send(ips)
+			close(carrier.SubStream.Chan)
+		}()
+		t := NewTask(nil, nil, "p", "echo", map[string]*FileIP{"x": ipa, "z": carrier}, nil,
+			map[string]*PortInfo{"z": {portType: "i", join: true, joinSep: ","}},
 			map[string]string{}, map[string]string{"tg": tg}, "", nil, 1)
-		t.subStreamIPs["z"] = []*FileIP{ips}
-		ref := vxRef14(a) + vxRef14(b) + vxRef14(sub) + "tg_" + tg
-		_ = ref
+		ref := vxRef14(a) + vxRef14(sub) + "tg_" + tg
 		return t, ref, true
 	}
 	t1, r1, _ := mk("1")
@@ -89,8 +94,8 @@ func VxH14b() {
 	d1again := t1.TempDir()
 	vxReach("both-built")
 	vxAssert(d1 == d1again, "C14.stable-under-map-order")
-	same := vxAnd(t1.InIPs["x"].Path() == t2.InIPs["x"].Path(), vxAnd(t1.InIPs["y"].Path() == t2.InIPs["y"].Path(),
-		vxAnd(t1.Tags["tg"] == t2.Tags["tg"], t1.subStreamIPs["z"][0].Path() == t2.subStreamIPs["z"][0].Path())))
+	same := vxAnd(t1.InIPs["x"].Path() == t2.InIPs["x"].Path(),
+		vxAnd(t1.Tags["tg"] == t2.Tags["tg"], t1.subStreamIPs["z"][0].Path() == t2.subStreamIPs["z"][0].Path()))
 	vxKnown(vxImplies(vxAnd(vxNot(same), r1 == r2), d1 != d2), "KF-C14-1")
 	vxAssert(vxImplies(vxNot(same), vxOr(r1 == r2, d1 != d2)), "C14.injective-all-components")
 	vxAssert(vxImplies(same, d1 == d2), "C14.stable")
